@@ -72,7 +72,7 @@ ASSUMPTIONS = [
     "context-local; the check re-establishes the captured state in every worker)",
     "factorial/fact are excluded (scipy absent)",
 ]
-REQUIRED = {'norm/entries-whose-squares-leave-the-float-range': 30, 'abs/entries-whose-squares-leave-the-float-range': 10, 
+REQUIRED = {'norm/entries-whose-squares-leave-the-float-range': 30, 'abs/entries-whose-squares-leave-the-float-range': 5, 
     'zone/must': 5000, 'zone/raise': 3000, 'zone/either': 500,
     'arg/complex': 5000, 'arg/near-pole-or-cut': 2000, 'arg/huge-or-tiny': 2000, 'arg/array': 2000,
     'raise/pole': 100, 'raise/real-only': 100, 'raise/wrong-arity': 1500, 'raise/wrong-shape': 1000,
